@@ -48,7 +48,8 @@ def write_evidence(
         "violations": violations,
         "harness_error": harness,
     }
-    d = os.path.join(env.VERIF_DIR, "evidence")
+    # PMVERIF_EVIDENCE_DIR: used by the mutant self-test so that runs against scratch copies do not overwrite evidence/
+    d = os.environ.get("PMVERIF_EVIDENCE_DIR") or os.path.join(env.VERIF_DIR, "evidence")
     os.makedirs(d, exist_ok=True)
     path = os.path.join(d, f"{mod.ID}.json")
     tmp = path + ".tmp"
